@@ -534,7 +534,7 @@ fn small_msid() -> BoxedStrategy<u32> {
 fn arg_value() -> BoxedStrategy<V> {
     // arguments handlers look at: numbers (stream ids, start positions), strings (keys, modes),
     // booleans, null, objects with the property names the handlers read
-    let cfg = AmfCfg { wire: true, too_long: false, empty_names: false, max_depth: 3 };
+    let cfg = AmfCfg { wire: true, too_long: false, empty_names: false, max_depth: 3, chain: 0 };
     prop_oneof![
         4 => gen::amf_value(cfg),
         2 => prop_oneof![Just(0.0f64), Just(1.0), Just(2.0), Just(-1.0), Just(-2.0), Just(f64::NAN), Just(f64::INFINITY), Just(4294967296.0), Just(-0.5), Just(1e300)].prop_map(|f| V::Num(f.to_bits())),
